@@ -4560,7 +4560,8 @@ impl PeerConnectionInner {
             ));
         }
 
-        let mut remote_offered_bundle = false;
+        // Members of the BUNDLE group the remote offer established, if any.
+        let mut remote_bundle_mids: Option<Vec<String>> = None;
 
         let ordered_transceivers = if sdp_type == SdpType::Answer {
             let remote_guard = self.remote_description.lock();
@@ -4571,9 +4572,11 @@ impl PeerConnectionInner {
             for attr in &remote.session.attributes {
                 if attr.key == "group"
                     && let Some(val) = &attr.value
-                    && val.starts_with("BUNDLE")
+                    && let Some(members) = val.strip_prefix("BUNDLE")
+                    && remote_bundle_mids.is_none()
                 {
-                    remote_offered_bundle = true;
+                    remote_bundle_mids =
+                        Some(members.split_whitespace().map(str::to_string).collect());
                 }
             }
 
@@ -4661,7 +4664,7 @@ impl PeerConnectionInner {
             != crate::config::SdpCompatibilityMode::LegacySip
             && match sdp_type {
                 SdpType::Offer => ordered_transceivers.len() > 1,
-                SdpType::Answer => remote_offered_bundle,
+                SdpType::Answer => remote_bundle_mids.is_some(),
                 _ => false,
             };
         let local_offers_rtcp_mux = self.config.rtcp_mux_policy
@@ -5022,11 +5025,25 @@ impl PeerConnectionInner {
 
         if !desc.media_sections.is_empty() {
             if will_bundle {
-                let mids: Vec<String> = desc.media_sections.iter().map(|m| m.mid.clone()).collect();
-                let value = format!("BUNDLE {}", mids.join(" "));
-                desc.session
-                    .attributes
-                    .push(Attribute::new("group", Some(value)));
+                // RFC 8843 7.3: an answerer must not add an m= section to an
+                // offered BUNDLE group, so an answer only lists the sections
+                // the offerer grouped (an offer groups all of its sections).
+                let mids: Vec<String> = desc
+                    .media_sections
+                    .iter()
+                    .map(|m| m.mid.clone())
+                    .filter(|mid| {
+                        remote_bundle_mids
+                            .as_ref()
+                            .is_none_or(|offered| offered.contains(mid))
+                    })
+                    .collect();
+                if !mids.is_empty() {
+                    let value = format!("BUNDLE {}", mids.join(" "));
+                    desc.session
+                        .attributes
+                        .push(Attribute::new("group", Some(value)));
+                }
             }
 
             // In LegacySip mode, omit a=mid entirely: legacy SIP endpoints confuse
@@ -11622,6 +11639,50 @@ a=rtpmap:8 PCMA/8000\r\n";
         assert!(
             sdp.contains("a=mid:0"),
             "answer must keep a=mid:0 for the BUNDLED section, got:\n{sdp}"
+        );
+    }
+
+    /// The offerer bundles only mid 0; the answer must not pull mid 1 into the
+    /// group (RFC 8843 7.3), but both sections keep their mids.
+    #[tokio::test]
+    async fn answer_bundle_group_lists_only_offered_members() {
+        let transport = "c=IN IP4 0.0.0.0\r\n\
+a=ice-ufrag:IIjZ\r\n\
+a=ice-pwd:h/NG2DkTNsPwhU0swhrzWbLD\r\n\
+a=fingerprint:sha-256 A9:96:C7:D5:20:2D:17:06:CC:7E:94:0D:89:AA:DE:47:8F:21:3F:97:B1:D5:C5:A2:41:48:E1:A5:8A:D5:BB:B1\r\n\
+a=setup:actpass\r\n";
+        let remote_sdp = format!(
+            "v=0\r\n\
+o=- 1 2 IN IP4 127.0.0.1\r\n\
+s=-\r\n\
+t=0 0\r\n\
+a=group:BUNDLE 0\r\n\
+m=audio 9 UDP/TLS/RTP/SAVPF 0\r\n\
+{transport}\
+a=mid:0\r\n\
+a=sendrecv\r\n\
+a=rtcp-mux\r\n\
+a=rtpmap:0 PCMU/8000\r\n\
+m=video 9 UDP/TLS/RTP/SAVPF 96\r\n\
+{transport}\
+a=mid:1\r\n\
+a=sendrecv\r\n\
+a=rtcp-mux\r\n\
+a=rtpmap:96 VP8/90000\r\n"
+        );
+
+        let pc = PeerConnection::new(RtcConfiguration::default());
+        let remote = SessionDescription::parse(SdpType::Offer, &remote_sdp).unwrap();
+        pc.set_remote_description(remote).await.unwrap();
+
+        let sdp = pc.create_answer().await.unwrap().to_sdp_string();
+        assert!(
+            sdp.contains("a=group:BUNDLE 0\r\n"),
+            "answer must echo exactly the offered BUNDLE group, got:\n{sdp}"
+        );
+        assert!(
+            sdp.contains("a=mid:0") && sdp.contains("a=mid:1"),
+            "answer must keep both mids, got:\n{sdp}"
         );
     }
 
